@@ -3,7 +3,7 @@ from functools import partial
 
 from . import engine
 from .rules import (tables, errflow, stop, scope, fold, hashorder, eqfield, cast, lock, witness, orpat, guard, parsepure,
-                    kernel, evalorder, layer, export, panic, misc, pairflowrule, variant, folddrop, queryguard, iterops, round3, forshape, typeprint, variance, round4, round6, round8)
+                    kernel, evalorder, layer, export, panic, misc, pairflowrule, variant, folddrop, queryguard, iterops, round3, forshape, typeprint, variance, round4, round6, round8, round10)
 
 TRUST = ["rustc: type checking, MIR construction, Instance resolution, auto traits",
          "pest / pest_meta: PEG semantics, silent/atomic rule semantics, PrattParser precedence climbing",
@@ -33,7 +33,7 @@ ITER_SCOPE = scope_prefix("instruction::reduce::", "<instruction::reduce::", "in
 STDLIB_SCOPE = scope_prefix("stdlib::", "<stdlib::", "variable::try_from::", "<variable::Variable as std::convert::From<std::io")
 
 prop("C01",
-     [guard.run, guard.run_mustcall, misc.run_fnexit, misc.run_looptype, misc.run_slicetype, misc.run_celltype, queryguard.run, fold.run, scope.run, round3.run_meetuse, round3.run_assigntyping, round3.run_cellmember, lock.run_global, lock.run, round4.run_fnlocal, variance.run],
+     [guard.run, guard.run_mustcall, misc.run_fnexit, misc.run_looptype, misc.run_slicetype, misc.run_celltype, queryguard.run, fold.run, scope.run, round3.run_meetuse, round3.run_assigntyping, round3.run_cellmember, lock.run_global, lock.run, round4.run_fnlocal, variance.run, round10.run_retkind],
      "R-LOCK (a cell read without its lock, or through a second lock, lets a checked value change under the reader). R-VARIANCE: every assignability test of the checker goes through Type::matches, whose direction clauses and mandatory conjuncts are part of soundness. R-FNLOCAL: the scope entry of a function literal carries its result type. Also R-GLOBAL: no cache of parse results outlives the scope they were checked against. Also: Type::conjoin (a mere lower bound) is used only for parameter types (R-MEETUSE); `X=` is typed with the typing functions of X (R-ASSIGNTYPING). Decides the structural half of type soundness: all 43 static checks the soundness argument leans on exist, are tested "
      "before every success value of their creation function and cannot be bypassed (R-GUARD, R-MUSTCALL); falling off a function "
      "body yields () and MissingReturn stands in front of that for non-() functions (R-FNEXIT); the Type queries that compute "
@@ -55,8 +55,8 @@ prop("C02",
      "a frozen table turns every NEW panic-capable site into an alarm by design")
 
 prop("C03",
-     [pairflowrule.run, tables.run_dispatch, tables.run_precedence, partial(panic.run, name="R-PANIC"), guard.run_mustcall, queryguard.run, fold.run, errflow.run, parsepure.run, variant.run, round3.run_childkeep],
-     "R-CHILDKEEP (a statement or declaration filtered out of a module / block while it is created is still referred to by what stays: the folding pass then looks up a name that was never declared). Decides: every alternative the grammar can hand to a pair-walking function has an arm there (R-TABLES-D: primary, line/stm/"
+     [pairflowrule.run, tables.run_dispatch, tables.run_precedence, partial(panic.run, name="R-PANIC"), guard.run_mustcall, queryguard.run, fold.run, errflow.run, parsepure.run, variant.run, round3.run_childkeep, round10.run_retkind],
+     "R-RETKIND (an operator typed with a constant type whose kernel can build another kind: the folded value fails a downcast while parsing). R-CHILDKEEP (a statement or declaration filtered out of a module / block while it is created is still referred to by what stays: the folding pass then looks up a name that was never declared). Decides: every alternative the grammar can hand to a pair-walking function has an arm there (R-TABLES-D: primary, line/stm/"
      "body, type, match_arm, int, var_from_str) and every operator rule is registered in the Pratt parser (R-TABLES); every "
      "panic-capable site on the parse path is a reviewed row (R-PANIC); Type queries are guarded by their admissibility test "
      "(R-MUSTCALL) and treat union members alike (R-FOLD); folding failures are propagated as errors, never unwrapped (R-ERRFLOW); "
@@ -78,8 +78,8 @@ prop("C04",
      "kernel reuse is a sufficient mechanism, not a necessary one; And/Or folds are re-implementations (reviewed)")
 
 prop("C05",
-     [hashorder.run_hash, hashorder.run_order, hashorder.run_nondet, fold.run, lock.run_global, round4.run_instrstate, round4.run_concat, round6.run_noabsorb],
-     "R-NOABSORB. R-CONCAT (absorption by subtyping makes the member set depend on arrival order). Also R-GLOBAL / R-INSTRSTATE: nothing is left behind by an earlier parse or run. Decides: no Hash impl of a crate type observes hash iteration order (R-HASH); every iteration over a HashMap / HashSet / "
+     [hashorder.run_hash, hashorder.run_order, hashorder.run_nondet, fold.run, lock.run_global, round4.run_instrstate, round4.run_concat, round6.run_noabsorb, round10.run_renderkey],
+     "R-RENDERKEY: the text of a value is never used as a key or compared. R-NOABSORB. R-CONCAT (absorption by subtyping makes the member set depend on arrival order). Also R-GLOBAL / R-INSTRSTATE: nothing is left behind by an earlier parse or run. Decides: no Hash impl of a crate type observes hash iteration order (R-HASH); every iteration over a HashMap / HashSet / "
      "MultiType ends in an order-insensitive consumer, a commutative fold, a display-only context or a reviewed row "
      "(R-HASHORDER, def-use from each iteration start to its terminal consumers); no clock / env / thread / RandomState call "
      "outside stdlib::{fs,io} (R-NONDET); union folds query all members alike (R-FOLD).",
@@ -96,15 +96,15 @@ prop("C06",
      "who-may-call, scope pairing with def-use of the layer local and liveness", "")
 
 prop("C07",
-     [evalorder.run, folddrop.run, round3.run_childkeep, round6.run_strict],
-     "R-STRICT: strict constructs evaluate every operand on every successful path. Also R-CHILDKEEP: arms / candidates / elements are never filtered out of the instruction tree. Decides for the 11 Exec bodies that order operands: order by must-precede on the CFG, at most once per path, short-circuit by "
+     [evalorder.run, folddrop.run, round3.run_childkeep, round6.run_strict, round10.run_operandorder],
+     "R-OPERANDORDER: create_infix (and the Pratt callback) hand the left operand on before the right one. R-STRICT: strict constructs evaluate every operand on every successful path. Also R-CHILDKEEP: arms / candidates / elements are never filtered out of the instruction tree. Decides for the 11 Exec bodies that order operands: order by must-precede on the CFG, at most once per path, short-circuit by "
      "control dependence, branch exclusivity by mutual unreachability, sequences by absence of reordering adaptors. Order inside "
      "slice::Iter / zip / collect is trusted.",
      "dominance / reachability on MIR CFG keyed by receiver field of each exec call", "")
 
 prop("C08",
-     [partial(panic.run, scope=KERNEL_SCOPE, name="R-PANIC"), cast.run, guard.run_execerror, kernel.run, tables.run_precedence],
-     "Decides: integer kernels contain no checked raw arithmetic (a `+` instead of wrapping_add appears as a new Assert(Overflow) "
+     [partial(panic.run, scope=KERNEL_SCOPE, name="R-PANIC"), cast.run, guard.run_execerror, kernel.run, tables.run_precedence, round10.run_prims, round10.run_retkind],
+     "R-PRIMS: each numeric kernel applies exactly its reviewed primitives (wrapping_* on ints, IEEE operators on floats, signed comparisons). Decides: integer kernels contain no checked raw arithmetic (a `+` instead of wrapping_add appears as a new Assert(Overflow) "
      "site) and no unreviewed panic site (R-PANIC over bin_op / prefix_op); no value-changing cast of an operand (R-CAST, sign-test "
      "guards re-verified by dominance); each documented error arm exists and only there (R-GUARD-X); run, fold and compound "
      "assignment share one kernel per operator (R-KERNEL); operator <-> token <-> rule agreement (R-TABLES). std's wrapping_* / "
@@ -210,7 +210,7 @@ prop("C17",
      "compile_fail witnesses, def-use on the operands of Type::matches, must-call", "")
 
 prop("C18",
-     [export.run, export.run_error_struct, partial(panic.run, scope=STDLIB_SCOPE, name="R-PANIC"), cast.run, variant.run, round4.run_stddelegate, export.run_ret, round8.run_dropwrite],
+     [export.run, export.run_error_struct, partial(panic.run, scope=STDLIB_SCOPE, name="R-PANIC"), cast.run, variant.run, round4.run_stddelegate, export.run_ret, round8.run_dropwrite, round10.run_ioerr],
      "R-DROPWRITE: a buffered writer is flushed before every success value (an error in Drop is lost: the call would report () for a failed write). R-EXPORT-RET: the derived result type of an export is the TypeOf of the Rust type whose value is converted (io::Result keeps its error struct). R-STDDELEGATE: helpers named after a std method answer through that method on every path. Decides for all 77 exports: declared parameter names = names the generated closure imports, in order; TypeOf type of each "
      "undecorated parameter = its TryInto target; TypeOf kind = kind tested by TryFrom<&Variable> (8 rows); error-struct keys "
      "agree; every panic-capable site under stdlib is a reviewed row (fs / io bodies have none); stdlib casts are listed with "
@@ -218,8 +218,8 @@ prop("C18",
      "MIR extraction of generated Function::new parameter lists vs generated closures", "")
 
 prop("C19",
-     [eqfield.run, round3.run_valuearm, round3.run_childkeep, round3.run_meetuse, round8.run_repeat],
-     "R-REPEAT: `[v; n]` is built by Array::new_repeat = repeat_n(v, n) collected, when run and when folded (so it equals the literal with n copies, `[]` for n = 0). Also: value arms / candidates are never dropped (R-CHILDKEEP), nor pruned by the non-exact meet (R-MEETUSE). Also R-VALUEARM: value arms of match consult nothing but Variable::eq. Decides: Array equality reads `elements` only; Variable equality compares Function / Mut by Arc::ptr_eq and the rest through "
+     [eqfield.run, round3.run_valuearm, round3.run_childkeep, round3.run_meetuse, round8.run_repeat, round10.run_infixop, round10.run_renderkey],
+     "R-INFIXOP: `==` / `!=` are built as the operator that was written, never rewritten into another one. R-RENDERKEY. R-REPEAT: `[v; n]` is built by Array::new_repeat = repeat_n(v, n) collected, when run and when folded (so it equals the literal with n copies, `[]` for n = 0). Also: value arms / candidates are never dropped (R-CHILDKEEP), nor pruned by the non-exact meet (R-MEETUSE). Also R-VALUEARM: value arms of match consult nothing but Variable::eq. Decides: Array equality reads `elements` only; Variable equality compares Function / Mut by Arc::ptr_eq and the rest through "
      "the payload's PartialEq; `ne` is not overridden; ==, != and match value arms call exactly that PartialEq. Symmetry / "
      "reflexivity as laws are not decided.",
      "field-projection and callee inspection of the PartialEq impls", "")
